@@ -26,7 +26,7 @@ def gen_case(sd, idx, small):
     kind = r.choice(["grid", "graph"])
     one_cell = r.random() < 0.12
     opts = {"space": kind, "explicit_chstt": 0.7, "integer_state": True, "state_counts": (0, 40), "p_zero": 0.15,
-            "net": {"chstt": 0.5, "nreactions": (0, 3), "nspecies": (1, 4), "max_order": 3, "counts": (0, 40)},
+            "net": {"no_growth": False, "chstt": 0.5, "nreactions": (0, 3), "nspecies": (1, 4), "max_order": 3, "counts": (0, 40)},
             "grid": {"dims": (1, 1) if one_cell else (1, 3), "max_cells": 6 if small else 18},
             "graph": {"nodes": (1, 1) if one_cell else (2, 4 if small else 7), "simple": True}}
     desc = gen.rand_system(r, opts)
